@@ -115,6 +115,7 @@ func cmdCheck(args []string, repo, spec string, timeout int, verbose bool) int {
 	}
 	c := &Checker{W: w, Prop: ps, Tier: tier, Seed: seed, Timeout: timeout, Dir: dir, Verif: verif, EncOf: map[*Obl]*enc{}}
 	c.selectAndEncode()
+	c.reliedContracts()
 	c.invariantWriters()
 	c.writersObligations()
 	c.ifaceTypeObligations()
@@ -336,6 +337,7 @@ func (c *Checker) report(t0 time.Time, verbose bool) int {
 	assum := map[string]bool{}
 	notes := map[string]int{}
 	models := map[string]string{}
+	var mathFns, bvFns []string
 	for _, e := range c.Encs {
 		fnSet[e.key] = true
 		for a := range e.assumptions {
@@ -355,9 +357,21 @@ func (c *Checker) report(t0 time.Time, verbose bool) int {
 				mode += " strings=opaque"
 			}
 			if !e.bv {
-				assum["machine integers treated as mathematical integers in "+e.key] = true
+				mathFns = append(mathFns, e.key)
+			} else {
+				bvFns = append(bvFns, e.key)
 			}
 			_ = mode
+		}
+	}
+	sort.Strings(mathFns)
+	sort.Strings(bvFns)
+	switch {
+	case len(mathFns) > 8:
+		assum[fmt.Sprintf("machine integers treated as mathematical integers (no overflow) in %d functions under contract: all but the %d encoded with 64-bit vectors %v", len(mathFns), len(bvFns), bvFns)] = true
+	default:
+		for _, k := range mathFns {
+			assum["machine integers treated as mathematical integers in "+k] = true
 		}
 	}
 	for _, o := range c.Obls {
@@ -969,6 +983,65 @@ func (c *Checker) invariantWriters() {
 				added = true
 				c.addFunc(f, filter)
 			}
+		}
+		if !added {
+			break
+		}
+	}
+}
+
+// reliedContracts: a contract applied at a call site of an encoded function is an assumption there; it
+// has to be an obligation somewhere. A function whose contract carries no property tag at all would be
+// proved by no check: it is encoded here, for its postconditions and invariants. A contract tagged
+// with other properties is proved by their checks; the reliance is listed.
+func (c *Checker) reliedContracts() {
+	if onlyRe != nil {
+		return
+	}
+	encoded := map[string]bool{}
+	for _, e := range c.Encs {
+		encoded[e.key] = true
+	}
+	for round := 0; round < 6; round++ {
+		added := false
+		var jobs []string
+		seen := map[string]bool{}
+		for _, e := range c.Encs {
+			for fc, key := range e.usedFCs {
+				if fc.Trusted || fc.TrustedExtra || encoded[key] || seen[key] {
+					continue
+				}
+				has := false
+				for _, p := range fc.Props {
+					has = has || p == c.Prop.ID
+				}
+				if has {
+					continue
+				}
+				seen[key] = true
+				if len(fc.Props) > 0 {
+					if len(fc.Ensures) > 0 {
+						e.assumptions[fmt.Sprintf("relies on the postconditions of %s, which are proved under %s", key, strings.Join(fc.Props, ", "))] = true
+					}
+					continue
+				}
+				if len(fc.Ensures) == 0 {
+					continue // nothing assumed but its frame, which frame:assigns checks
+				}
+				jobs = append(jobs, key)
+			}
+		}
+		sort.Strings(jobs)
+		for _, key := range jobs {
+			f := c.W.Funcs[key]
+			if f == nil || f.Blocks == nil {
+				continue
+			}
+			encoded[key] = true
+			added = true
+			c.addFunc(f, func(o *Obl) bool {
+				return o.Class == "post" || o.Class == "inv" || o.Class == "pre" || o.Class == "assert" || o.Class == "dec"
+			})
 		}
 		if !added {
 			break
